@@ -42,19 +42,20 @@ Proof.
 Qed.
 Print Assumptions C08_cached_keys_stay_open.
 
-(* the same for the default policy with Session.Close destroying the closing session's own cache: whatever an OPEN session can reach
-   through its caches has not been destroyed by the closes of other sessions (sequential histories) *)
+(* the same with Session.Close destroying the closing session's own cache and SessionFactory.Close destroying the factory's caches:
+   whatever an OPEN session of an open factory can reach through its caches has not been destroyed by the closes of others (sequential histories) *)
 From Asherah Require Envelope.LiveD Envelope.LiveCloseD.
 
-Theorem C08_closing_a_session_destroys_no_key_an_open_session_can_reach : forall svc prod t0 ops,
-  LiveCloseD.okrun svc prod (Session.hinit t0) ops ->
+Theorem C08_closes_destroy_no_key_an_open_session_can_reach : forall svc prod t0 ops,
+  LiveCloseD.okrun svc prod [] (Session.hinit t0) ops ->
   let w := Session.h_world (snd (Session.hrun (Session.hinit t0) ops)) in
   forall s x fa cid kc ks e, nth_error (World.w_sessions w) s = Some x -> World.ss_torn x = false ->
+    ~ In (World.ss_factory x) (LiveCloseD.cf_run [] ops) ->
     nth_error (World.w_factories w) (World.ss_factory x) = Some fa ->
     World.ss_ik x = Some cid \/ World.fa_sk fa = Some cid -> nth_error (World.w_caches w) cid = Some kc ->
     Coherent.b_abs (World.kc_backing kc) ks = Some e -> LiveD.open_k w (World.ce_key e).
 Proof.
-  intros svc prod t0 ops OK w. apply (LiveCloseD.open_sessions_cached_keys_open svc prod).
+  intros svc prod t0 ops OK w. apply (LiveCloseD.open_sessions_cached_keys_open svc prod (LiveCloseD.cf_run [] ops)).
   exact (proj2 (LiveCloseD.closing_invariants_reachable_own svc prod t0 ops OK)).
 Qed.
-Print Assumptions C08_closing_a_session_destroys_no_key_an_open_session_can_reach.
+Print Assumptions C08_closes_destroy_no_key_an_open_session_can_reach.
